@@ -97,7 +97,16 @@ def build_node(cfg, local=1, now=1000):
         if not rec.outs or rec.outs[-1] != ('FailureJob',):
             rec.outs.append(('FailureJob',))
     fh.add_default_job = add_default_job
-    st.on_instances_invalidation = lambda lost, procs: rec.outs.append(('JobsInvalidation', [idx(x) for x in lost]))
+    def starter_invalidation(lost, procs):
+        """ the in-place filtering contract of Commander.on_instances_invalidation: the processes whose start was
+        pending on a lost instance are REMOVED from the set given by the caller (the very set that _master_next
+        iterates afterwards). Abstraction: when the oracle of the evaluation in progress says the Starter is busy,
+        every lost process had its start pending there (the Starter takes care of all of them). A caller that
+        hands a copy over keeps its lost processes and feeds the failure handler: observable as FailureJob. """
+        rec.outs.append(('JobsInvalidation', [idx(x) for x in lost]))
+        if rec.cur()[0]:
+            procs.clear()
+    st.on_instances_invalidation = starter_invalidation
     sp.on_instances_invalidation = lambda lost, procs: None
     st.on_event = lambda *a: None
     sp.on_event = lambda *a: None
@@ -333,6 +342,11 @@ class NodeSuite(Suite):
         pcnt = {j: rng.randint(0, 30) for j in range(1, 7)}
         pstate = {j: 'OFF' for j in range(1, 7)}     # what each peer would publish as its own FSM state
         busy_p = rng.choice([0.0, 0.0, 0.2, 0.5])
+        # loss focus (1 history in 2), aimed at the in-place filtering contract between _common_next and
+        # _master_next: the handshakes more often reveal a process running only on the peer; once the local instance is
+        # the Master in a working state, a peer hosting such a process more often falls silent; and the Starter is more
+        # often busy at the local ticks that follow (the evaluation that acknowledges the loss)
+        focus = rng.random() < 0.5
         evs = []
         # late joiner mode: the peers already form a working cluster with an established Master among them
         established = min(peers) if rng.random() < 0.3 else 0
@@ -344,6 +358,17 @@ class NodeSuite(Suite):
 
         def ist(j):
             return ctx.instances[ident(j)].state.name
+
+        def hosts(ids):
+            """ the instances among ids on which, in the real context, some process is running """
+            return [h for h in sorted(ids) if ctx.instances[ident(h)].running_processes()]
+
+        def tick_orcs():
+            """ oracles of a local tick: in a loss-focused history, Starter mostly busy while a silent peer still
+            hosts a process """
+            if focus and hosts(set(peers) - alive):
+                return self.gen_orcs(rng, max(busy_p, 0.7))
+            return self.gen_orcs(rng, busy_p)
 
         def rpc_gate(e):
             """ the XML-RPC layer only lets these requests through in their documented states / with checked
@@ -408,6 +433,11 @@ class NodeSuite(Suite):
                     now, cnt = e[2], e[1]
             else:
                 r = rng.random()
+                if focus and sm.is_master() and sm.state.value in (3, 4, 5) and rng.random() < 0.3:
+                    hs = hosts(alive)
+                    if hs:
+                        alive.discard(rng.choice(hs))     # a peer hosting a process falls silent under a working Master
+                        continue
                 j = rng.choice(sorted(alive) + [1]) if alive else rng.choice(peers + [1])
                 if j == 1 and ist(1) == 'CHECKING':
                     now += rng.randint(0, 1)
@@ -419,7 +449,7 @@ class NodeSuite(Suite):
                         e = ('Auth', self.gen_origin(rng, 1, False), a, now + 1, now)
                 elif j == 1 or r < 0.25:
                     now += 5
-                    e = ('LocalTick', cnt, now, self.gen_orcs(rng, busy_p))   # the first TICK carries counter 0
+                    e = ('LocalTick', cnt, now, tick_orcs())   # the first TICK carries counter 0
                     cnt += 1
                 elif r < 0.32 and alive and rng.random() < 0.3:
                     alive.discard(j)            # j falls silent (crash / partition)
@@ -438,8 +468,8 @@ class NodeSuite(Suite):
                 elif ist(j) == 'CHECKING':
                     now += rng.randint(0, 1)
                     r2 = rng.random()
-                    if r2 < 0.15:
-                        e = ('AllInfo', self.gen_origin(rng, j, False), rng.random() < 0.5, now)
+                    if r2 < (0.6 if focus else 0.15):
+                        e = ('AllInfo', self.gen_origin(rng, j, False), rng.random() < (0.85 if focus else 0.5), now)
                     elif r2 < 0.25:
                         e = ('Ident', (j, now + 1))
                     else:
@@ -464,7 +494,7 @@ class NodeSuite(Suite):
             if e is None:
                 # refused by the XML-RPC gate: replaced by a local tick so that the history still advances
                 now += 5
-                e = ('LocalTick', cnt, now, self.gen_orcs(rng, busy_p))
+                e = ('LocalTick', cnt, now, tick_orcs())
                 cnt += 1
             evs.append(e)
             tag, _, _, _ = run.apply(e)
